@@ -4,19 +4,8 @@
    can leave the net order unchanged while an iterator has been pushed past the entry.  The witness
    is replayed on the implementation (corpus/C09.txt, last line). *)
 From Coq Require Import List Arith ZArith NArith PArith Bool Lia FMapPositive.
-From Muscle Require Import Cont.HtModel Cont.HtStep Cont.HtTravW Cont.HtTravOps Cont.HtTravThm.
+From Muscle Require Import Cont.HtModel Cont.HtStep Cont.HtTravW Cont.HtTravOps Cont.HtTravSem Cont.HtTravThm.
 Import ListNotations.
-
-Definition memb (x : positive) (l : list positive) : bool := existsb (Pos.eqb x) l.
-Fixpoint list_eqb (a b : list positive) : bool :=
-  match a, b with
-  | [], [] => true
-  | x :: a', y :: b' => Pos.eqb x y && list_eqb a' b'
-  | _, _ => false
-  end.
-(* the entries common to l and l' occur in the same relative order *)
-Definition order_keptb (l l' : list positive) : bool :=
-  list_eqb (filter (fun x => memb x l') l) (filter (fun x => memb x l) l').
 
 Section R.
 Variable var : variant.
